@@ -21,7 +21,7 @@
 (*   QuotaResetFirst = TRUE   the original order in async_sender::resend() *)
 (*   ResendGuard     = FALSE  no guard against a second resend per stream  *)
 (***************************************************************************)
-EXTENDS Observer, SenderCore
+EXTENDS Observer, SenderCore, Json
 
 CONSTANTS
     NOps,            \* number of application requests
@@ -422,6 +422,10 @@ InvPidUnique      == \A a, b \in Ops : a # b /\ Outst(a) /\ Outst(b) /\ c.pid[a]
 InvPidNonZero     == \A op \in Ops : Outst(op) /\ KindOf[op] # "pub0" => c.pid[op] # 0                 \* C08
 InvAbortOnlyIfCancelled == \A op \in Ops : c.res[op] \notin {"", "ok"} => (c.res[op] = "aborted" /\ c.canc[op])   \* C02
 InvBrokerStateReset == TRUE
+
+\* model-guided testing: every quiescent state with all requests done prints the environment history that led to it;
+\* tools/l3.py turns each line into a scenario script that is executed against the real client
+EmitScript == (AllDone /\ Quiet(c)) => PrintT("SCRIPT " \o ToJson(hist))
 
 \* the history of environment choices, hidden from the fingerprint when only reachability of bad states matters
 View == <<c, net, brk, o, bad>>
